@@ -264,6 +264,11 @@ where
                     }
                 };
                 running.fetch_sub(1, Ordering::SeqCst);
+                // hand freed builder memory back to the system so that the RSS reading below the
+                // throttle reflects live data (glibc keeps freed arenas otherwise)
+                if rss_gib() > 0.25 * rss_cap_gib() {
+                    trim_heap();
+                }
                 results_ptr.lock().unwrap()[i] = Some(r);
             });
         }
@@ -282,6 +287,17 @@ where
         ));
     }
     out
+}
+
+extern "C" {
+    fn malloc_trim(pad: usize) -> i32;
+}
+
+/// return freed heap pages to the operating system (glibc)
+pub fn trim_heap() {
+    unsafe {
+        malloc_trim(0);
+    }
 }
 
 pub fn panic_msg(e: &Box<dyn std::any::Any + Send>) -> String {
